@@ -256,18 +256,21 @@ prop("C20",
 
 prop("C17",
      title="Decode mode prints every element of the RDB, recoverably",
-     quick=[{"re": "^TestC17$", "checks": 500, "shards": 2}],
-     thorough=[{"re": "^TestC17$", "checks": 60000, "shards": 12, "timeout": 1700}],
+     quick=[{"re": "^TestC17$", "checks": 500, "shards": 2},
+            {"re": "^TestC17Chunked$", "checks": 4, "shards": 2}],
+     thorough=[{"re": "^TestC17$", "checks": 60000, "shards": 12, "timeout": 1700},
+               {"re": "^TestC17Chunked$", "checks": 240, "shards": 6, "timeout": 1700}],
      rule="RDB files from the C01 generator restricted to classic types in every encoding (ziplist/intset/zipmap/quicklist/LZF/int strings), binary "
           "keys/fields/members (non-printable, invalid UTF-8), scores incl. +-inf and -0, 0-3 dbs (numbers up to 70000), expiries, aux/resizedb/"
-          "module-aux, lua scripts; parallel = 1..8; the real CmdDecode.decode on temp files. Oracle: the output parsed line by line as JSON and "
+          "module-aux, lua scripts; parallel = 1..8; plus (TestC17Chunked) files holding one hash of 16-40 MiB between small keys, its size placed exactly on, one byte either side of, "
+          "and well beyond the loader's 16 MiB chunk limit (two and three chunks), parallel 1..4; the real CmdDecode.decode on temp files. Oracle: the output parsed line by line as JSON and "
           "reduced to (db,type,expireat,key64,index|field64|member64,value64|score bits) must equal, as a multiset, the expected lines built from the "
           "logical values (one per string / list element with index / hash field / set member / zset member / script); base64 fields byte-exact, "
           "scores numerically equal (a non-finite score may be a string); no abort; the call returns. Non-trivial: >=1 non-printable key, >=3 value "
           "types, parallel >= 2. Distinct = hash of (file, parallel).",
      technique="property-based testing (rapid): construction oracle (expected multiset of output lines known from the generated logical values) over generated files and worker counts",
      level_text="Generated files x worker counts with a multiset-equality oracle; worker schedules are whatever the Go runtime produces for 1-8 workers (sampled).",
-     level_note="Trusted: the RDB generator and the line canonicaliser. The aux line's value64 is accepted raw or base64 (the statement only demands the line). Hashes beyond 16 MiB are a known finding (decode aborts) and are only replayed in the regression tier.",
+     level_note="Trusted: the RDB generator and the line canonicaliser. The aux line's value64 is accepted raw or base64 (the statement only demands the line). Hashes beyond the 16 MiB chunk limit made decode abort (D12, repaired by 3067d8e); they are generated by TestC17Chunked and replayed in the regression tier.",
      assumptions=["NaN scores are not generated",
                   "line order across keys is unspecified; per-list indexes are checked through the index field"])
 
